@@ -39,13 +39,14 @@ func valuePool(rd *core.Rand, printableOnly bool) [][]byte {
 }
 
 type qgen struct {
-	rd       *core.Rand
-	dialect  string
-	two      bool
-	srch     map[cellKey]bool
-	pool     [][]byte
-	params   [][]byte
-	classes  map[string]bool // unsupported forms used
+	rd        *core.Rand
+	dialect   string
+	two       bool
+	kinds     map[cellKey]byte // 's' searchable, 't' consistently tokenized, 'e' encrypted only, absent = plain
+	pool      [][]byte
+	params    [][]byte
+	pclass    []byte          // per parameter: 's' bound to a supported comparison with a searchable column (HashQuery.OnBind hashes it), 't' with a consistently tokenized column (the tokenization observer replaces it), 'p' neither
+	classes   map[string]bool // unsupported forms used
 	printable bool
 }
 
@@ -62,23 +63,43 @@ func (g *qgen) value() []byte {
 	}
 }
 
-func (g *qgen) valueOperand() *operand {
-	v := g.value()
+// param returns a placeholder operand: a new parameter, or – sometimes – one that an earlier comparison
+// of the same class already uses (`$1` twice; MySQL then spells its placeholders `:vN`). A parameter
+// shared between comparisons of different classes can have only one value on the wire: outside the property.
+func (g *qgen) param(class byte) *operand {
+	if len(g.params) > 0 && g.rd.Chance(30) {
+		i := g.rd.Intn(len(g.params))
+		if g.pclass[i] == 'k' {
+			// (the known-finding oracle re-spells that comparison the supported way, which changes the parameter's class)
+		} else if g.pclass[i] == class {
+			g.classes["shared-placeholder"] = true
+			return &operand{kind: 'P', i: i}
+		} else if g.rd.Chance(15) {
+			g.classes["outside"] = true
+			return &operand{kind: 'P', i: i}
+		}
+	}
+	g.params = append(g.params, g.value())
+	g.pclass = append(g.pclass, class)
+	return &operand{kind: 'P', i: len(g.params) - 1}
+}
+
+func (g *qgen) valueOperand(class byte) *operand {
 	switch c := g.rd.Intn(10); {
-	case c < 4:
-		return &operand{kind: 'L', v: v}
-	case c < 6 && g.dialect == "pg":
-		return &operand{kind: 'K', v: v}
+	case c < 3:
+		return &operand{kind: 'L', v: g.value()}
+	case c < 5 && g.dialect == "pg":
+		return &operand{kind: 'K', v: g.value()}
 	default:
-		g.params = append(g.params, v)
-		return &operand{kind: 'P', i: len(g.params) - 1}
+		return g.param(class)
 	}
 }
 
-func (g *qgen) col(searchable bool, tbl int) *operand {
+// col picks a column of table tbl whose kind is one of `kinds` (0 = plain).
+func (g *qgen) col(kinds string, tbl int) *operand {
 	var cs []int
 	for c := 0; c < nCols; c++ {
-		if g.srch[cellKey{tbl, c}] == searchable {
+		if strings.IndexByte(kinds, g.kinds[cellKey{tbl, c}]) >= 0 {
 			cs = append(cs, c)
 		}
 	}
@@ -87,6 +108,8 @@ func (g *qgen) col(searchable bool, tbl int) *operand {
 	}
 	return &operand{kind: 'C', tbl: tbl, col: core.Pick(g.rd, cs)}
 }
+
+const notSearchable = "te\x00"
 
 func (g *qgen) tbl() int {
 	if g.two && g.rd.Bool() {
@@ -108,23 +131,38 @@ func (g *qgen) leaf() *cond {
 	}
 	for {
 		switch c := rd.Intn(100); {
-		case c < 55: // searchable column = / <> value
-			l := g.col(true, g.tbl())
+		case c < 45: // searchable column = / <> value
+			l := g.col("s", g.tbl())
 			if l == nil {
 				continue
 			}
-			return &cond{op: eqne(), l: l, r: g.valueOperand()}
-		case c < 70: // plain column compared with a value
-			l := g.col(false, g.tbl())
+			return &cond{op: eqne(), l: l, r: g.valueOperand('s')}
+		case c < 57: // consistently tokenized column = / <> value: the filter selects it, ParseSearchQueryPlaceholdersSettings lists it, HashQuery must leave it alone
+			l := g.col("t", g.tbl())
 			if l == nil {
 				continue
 			}
-			return &cond{op: core.Pick(rd, []string{"=", "<>", "<"}), l: l, r: g.valueOperand()}
+			return &cond{op: eqne(), l: l, r: g.valueOperand('t')}
+		case c < 70: // plain / encrypted-only / tokenized column compared with a value
+			l := g.col(notSearchable, g.tbl())
+			if l == nil {
+				continue
+			}
+			op := core.Pick(rd, []string{"=", "<>", "<"})
+			class := byte('p')
+			if g.kinds[cellKey{l.tbl, l.col}] == 't' {
+				if op == "<" {
+					g.classes["outside"] = true // ordering over tokens
+				} else {
+					class = 't'
+				}
+			}
+			return &cond{op: op, l: l, r: g.valueOperand(class)}
 		case c < 80: // join over two searchable columns
 			if !g.two {
 				continue
 			}
-			l, r := g.col(true, 0), g.col(true, 1)
+			l, r := g.col("s", 0), g.col("s", 1)
 			if l == nil || r == nil {
 				continue
 			}
@@ -132,47 +170,57 @@ func (g *qgen) leaf() *cond {
 				l, r = r, l
 			}
 			return &cond{op: eqne(), l: l, r: r}
-		case c < 85: // join over two plain columns
+		case c < 85: // join over two columns that are not searchable
 			if !g.two {
 				continue
 			}
-			l, r := g.col(false, 0), g.col(false, 1)
+			l, r := g.col(notSearchable, 0), g.col(notSearchable, 1)
 			if l == nil || r == nil {
 				continue
 			}
 			return &cond{op: "=", l: l, r: r}
 		case c < 91: // value on the LEFT of a searchable column (known finding)
-			r := g.col(true, g.tbl())
+			r := g.col("s", g.tbl())
 			if r == nil {
 				continue
 			}
 			g.classes["value-on-left"] = true
-			return &cond{op: eqne(), l: g.valueOperand(), r: r}
+			l := &operand{kind: 'L', v: g.value()}
+			if rd.Bool() {
+				g.params = append(g.params, g.value())
+				g.pclass = append(g.pclass, 'k') // parameter of a known unsupported form: never shared
+				l = &operand{kind: 'P', i: len(g.params) - 1}
+			}
+			return &cond{op: eqne(), l: l, r: r}
 		case c < 95: // placeholder under a cast (PostgreSQL; known finding)
-			l := g.col(true, g.tbl())
+			l := g.col("s", g.tbl())
 			if l == nil || g.dialect != "pg" {
 				continue
 			}
 			g.classes["cast-placeholder"] = true
 			g.params = append(g.params, g.value())
+			g.pclass = append(g.pclass, 'k')
 			return &cond{op: eqne(), l: l, r: &operand{kind: 'Q', i: len(g.params) - 1}}
 		case c < 98: // outside the property: ordering comparison / function on a searchable column
-			l := g.col(true, g.tbl())
+			l := g.col("s", g.tbl())
 			if l == nil {
 				continue
 			}
 			g.classes["outside"] = true
 			if rd.Bool() {
-				return &cond{op: "<", l: l, r: g.valueOperand()}
+				return &cond{op: "<", l: l, r: g.valueOperand('p')}
 			}
 			return &cond{op: "=", l: l, r: &operand{kind: 'O'}}
-		default: // searchable column against a plain column: outside the property
+		default: // searchable column against a column that is not searchable (either order): outside the property
 			if !g.two {
 				continue
 			}
-			l, r := g.col(true, 0), g.col(false, 1)
+			l, r := g.col("s", 0), g.col(notSearchable, 1)
 			if l == nil || r == nil {
 				continue
+			}
+			if rd.Bool() {
+				l, r = r, l
 			}
 			g.classes["outside"] = true
 			return &cond{op: "=", l: l, r: r}
@@ -202,14 +250,25 @@ func queryCases(r *core.Run) {
 			v.typed = false
 		}
 		two := rd.Chance(30)
-		g := &qgen{rd: rd, dialect: dialect, two: two, srch: map[cellKey]bool{{0, 1}: true}, classes: map[string]bool{}, printable: v.typed}
+		g := &qgen{rd: rd, dialect: dialect, two: two, kinds: map[cellKey]byte{{0, 1}: 's'}, classes: map[string]bool{}, printable: v.typed}
 		if rd.Bool() {
-			g.srch[cellKey{0, 3}] = true
+			g.kinds[cellKey{0, 3}] = 's'
+		}
+		// the other columns: plain, consistently tokenized or encrypted only – in every position relative to the searchable ones
+		for _, k := range []cellKey{{0, 0}, {0, 2}, {0, 3}} {
+			if g.kinds[k] == 0 && rd.Chance(45) {
+				g.kinds[k] = core.Pick(rd, []byte{'t', 't', 'e'})
+			}
 		}
 		if two {
-			g.srch[cellKey{1, 1}] = true
+			g.kinds[cellKey{1, 1}] = 's'
 			if rd.Bool() {
-				g.srch[cellKey{1, 2}] = true
+				g.kinds[cellKey{1, 2}] = 's'
+			}
+			for _, k := range []cellKey{{1, 2}, {1, 3}} { // c0 is the join column of the generated statement: stays plain
+				if g.kinds[k] == 0 && rd.Chance(40) {
+					g.kinds[k] = core.Pick(rd, []byte{'t', 'e'})
+				}
 			}
 		}
 		g.pool = valuePool(rd, v.typed)
@@ -234,12 +293,21 @@ func queryCases(r *core.Run) {
 					k := cellKey{t, c}
 					val := core.Pick(rd, g.pool)
 					pr[k] = val
-					if g.srch[k] {
+					if g.kinds[k] == 's' {
 						if envelopeLike(r, val) {
 							ok = false
 							break
 						}
-						s, good := w.encrypt(r, v.kind, val)
+						toStore := val
+						if len(val) > 0 && rd.Chance(20) {
+							// the value arrives already protected for this client (AcraWriter, or copied from another
+							// protected column): it must get the index of its plaintext and be found like the others
+							if pre, okPre := env.Protect(r, core.Pick(rd, []string{"struct", "block"}), w.kv, val); okPre {
+								toStore = pre
+								r.Tag("row:pre-encrypted")
+							}
+						}
+						s, good := w.encrypt(r, v.kind, toStore)
 						if !good {
 							ok = false
 							break
@@ -298,13 +366,25 @@ func queryCases(r *core.Run) {
 			plainRows, storedRows = pr2, sr2
 		}
 		var cols []string
+		kindsUsed := map[byte]bool{}
 		for t := 0; t < 2; t++ {
 			for cc := 0; cc < nCols; cc++ {
-				if g.srch[cellKey{t, cc}] {
+				switch k := g.kinds[cellKey{t, cc}]; k {
+				case 's':
 					cols = append(cols, fmt.Sprintf("%d.%d", t, cc))
+				case 't', 'e':
+					cols = append(cols, fmt.Sprintf("%d.%d:%c", t, cc, k))
 				}
 			}
 		}
+		eachColumn(c, func(o *operand) { kindsUsed[g.kinds[cellKey{o.tbl, o.col}]] = true })
+		mix := ""
+		for _, k := range []byte{'s', 't', 'e', 0} {
+			if kindsUsed[k] {
+				mix += map[byte]string{'s': "s", 't': "t", 'e': "e", 0: "p"}[k]
+			}
+		}
+		r.Tag("columns-in-condition:" + mix)
 		for cl := range g.classes {
 			r.Tag("form:" + cl)
 		}
@@ -324,6 +404,24 @@ func queryCases(r *core.Run) {
 		}
 		judge(r, dialect, v, c, g.params, w, cols, storedRows, plainRows, order, out, g.classes["value-on-left"] || g.classes["cast-placeholder"])
 		_ = f
+		// the same statement through BOTH observers of the proxy (consistent tokenization, then searchable
+		// encryption) over rows whose tokenized columns hold real tokens: supported forms only
+		if len(g.classes) == 0 || (len(g.classes) == 1 && g.classes["shared-placeholder"]) {
+			chainCase(r, dialect, v, c, g.params, w, cols, plainRows, order)
+		}
+	}
+}
+
+func eachColumn(c *cond, f func(o *operand)) {
+	if c.a != nil {
+		eachColumn(c.a, f)
+		eachColumn(c.b, f)
+		return
+	}
+	for _, o := range []*operand{c.l, c.r} {
+		if o.kind == 'C' {
+			f(o)
+		}
 	}
 }
 
@@ -372,12 +470,22 @@ func judge(r *core.Run, dialect string, v variant, c *cond, params [][]byte, w *
 	desc := fmt.Sprintf("%s %s: rows selected by the database %s, rows whose plaintext satisfies the condition %s (condition %s)", dialect, statement(v, c, "…"), last(f), want, c.String())
 	srch := map[string]bool{}
 	for _, cl := range cols {
-		srch[cl] = true
+		if !strings.Contains(cl, ":") { // `t.c:t` / `t.c:e` are tokenized / encrypted-only columns
+			srch[cl] = true
+		}
 	}
 	class := knownClass(c, srch)
 	if len(f) != 4 || f[0] != "ok" {
 		r.Fail("search-error", fmt.Sprintf("%s: the statement was not forwarded (%s) for condition %s", dialect, trunc(out), c.String()))
 		return
+	}
+	// the operand of a supported search must not reach the database in clear (it is replaced by its blind index)
+	bound := env.ParseList(f[2])
+	for i := range hashedParams(c, srch) {
+		if i < len(bound) && i < len(params) && len(params[i]) > 0 && bytes.Equal(bound[i], params[i]) {
+			r.Fail("search-operand-unhashed", fmt.Sprintf("%s %s: parameter %d of a comparison with a searchable column is forwarded to the database as the client sent it (condition %s)", dialect, statement(v, c, "…"), i+1, c.String()))
+			break
+		}
 	}
 	if f[3] == want {
 		return
@@ -395,6 +503,74 @@ func judge(r *core.Run, dialect string, v variant, c *cond, params [][]byte, w *
 	} else {
 		r.Fail("search-not-exact", desc+" – and the supported spelling "+rc.String()+" selects "+last(f2))
 	}
+}
+
+// chainCase: implementation and oracle only (token values are random, the model does not predict them).
+func chainCase(r *core.Run, dialect string, v variant, c *cond, params [][]byte, w *world, cols []string, plainRows []row, order []cellKey) {
+	kinds := parseKinds(strings.Join(cols, ";"))
+	emptyTokLiteral, skip := false, false
+	var walk func(c *cond)
+	walk = func(c *cond) {
+		if c.a != nil {
+			walk(c.a)
+			walk(c.b)
+			return
+		}
+		lt := c.l.kind == 'C' && kinds[cellKey{c.l.tbl, c.l.col}] == 't'
+		rt := c.r.kind == 'C' && kinds[cellKey{c.r.tbl, c.r.col}] == 't'
+		switch {
+		case c.l.kind == 'C' && c.r.kind == 'C' && lt != rt:
+			skip = true // a token compared with a value that is not a token: outside the property
+		case lt && (c.r.kind == 'L' || c.r.kind == 'K') && len(c.r.v) == 0:
+			emptyTokLiteral = true
+		case lt && (c.r.kind == 'L' || c.r.kind == 'K') && !printable(c.r.v):
+			skip = true // the column holds text tokens (token_type str): a client compares it with text literals
+		case lt && (c.r.kind == 'L' || c.r.kind == 'K') && len(c.r.v) == 1:
+			skip = true // the token of a 1-character string equals the string with probability 1/62 (same finding, not decidable beforehand)
+		}
+	}
+	walk(c)
+	if skip {
+		r.Tag("chain:skipped")
+		return
+	}
+	// literals are spelled as text (a hex-spelled literal of a text token column would be tokenized as the
+	// characters `\x…`, which is what the client wrote, not a defect)
+	v = parseVariant(fmt.Sprint(v.n | 1<<10))
+	want := bitsOf(c, plainRows, params)
+	out := r.Impl(fmt.Sprintf("C09.chain %s %s %s %s %s %s %d", dialect, w.toks(), strings.Join(cols, ";"), c.String(), env.List(params), rowsStr(plainRows, order), v.n))
+	f := strings.Fields(out)
+	if len(f) == 0 {
+		f = []string{"?"}
+	}
+	r.Tag("chain:" + f[0])
+	if out == "err-query" && emptyTokLiteral {
+		r.Fail("chain-token-equals-literal", fmt.Sprintf("%s %s: a consistently tokenized column is compared with the literal '' whose token is '' again – the tokenization observer's OnQuery fails with ErrUpdateLeaveDataUnchanged, the observer manager stops, and the statement is forwarded with NONE of its comparisons rewritten (condition %s, columns %s)", dialect, statement(v, c, "…"), c.String(), strings.Join(cols, ";")))
+		return
+	}
+	if len(f) != 4 || f[0] != "ok" {
+		r.Fail("chain-search-error", fmt.Sprintf("%s %s through the tokenization and the searchable-encryption observer: the statement was not forwarded (%s), condition %s, columns %s", dialect, statement(v, c, "…"), trunc(out), c.String(), strings.Join(cols, ";")))
+		return
+	}
+	r.Check(f[3] == want, "chain-search-not-exact", fmt.Sprintf("%s %s through the tokenization and the searchable-encryption observer: rows selected by the database %s, rows whose plaintext satisfies the condition %s (condition %s, columns %s)", dialect, statement(v, c, "…"), f[3], want, c.String(), strings.Join(cols, ";")))
+}
+
+// hashedParams: the parameters compared (=, <>, <=>) with a searchable column on the left – the ones OnBind replaces.
+func hashedParams(c *cond, srch map[string]bool) map[int]bool {
+	out := map[int]bool{}
+	var walk func(c *cond)
+	walk = func(c *cond) {
+		if c.a != nil {
+			walk(c.a)
+			walk(c.b)
+			return
+		}
+		if c.l.kind == 'C' && srch[fmt.Sprintf("%d.%d", c.l.tbl, c.l.col)] && c.r.kind == 'P' && (c.op == "=" || c.op == "<>" || c.op == "<=>") {
+			out[c.r.i] = true
+		}
+	}
+	walk(c)
+	return out
 }
 
 func last(f []string) string {
@@ -415,8 +591,8 @@ func regression(r *core.Run) {
 	other := env.NewKV(rd, 1, 1)
 	foreign, _ := env.Protect(r, "block", other, []byte("foreign"))
 	for i, p := range [][]byte{
-		append([]byte{0x7f}, bytes.Repeat([]byte{0}, 32)...),            // looks like a bare hash
-		append([]byte{0x7f}, bytes.Repeat([]byte{'a'}, 60)...),          // hash-like, longer, no envelope inside
+		append([]byte{0x7f}, bytes.Repeat([]byte{0}, 32)...),                     // looks like a bare hash
+		append([]byte{0x7f}, bytes.Repeat([]byte{'a'}, 60)...),                   // hash-like, longer, no envelope inside
 		append(append([]byte{0x7f}, bytes.Repeat([]byte{1}, 32)...), foreign...), // hash ++ envelope of somebody else
 	} {
 		r.Begin(fmt.Sprintf("regress-processor-%d", i), true, "case:regression", "regress:processor-state")
@@ -442,25 +618,47 @@ func regression(r *core.Run) {
 		params              [][]byte
 		vals                []string // plaintexts of column c1 (= c3), one row each
 		variant             uint64
+		cols                []string // configured columns (default: c1 and c3 searchable)
 	}
 	const (
-		vHexVal  = 0        // MySQL: X'…' / PostgreSQL: '\x…'
-		vText    = 1 << 10  // text literals
-		vHexNum  = 1 << 17  // MySQL: 0x…
+		vHexVal  = 0       // MySQL: X'…' / PostgreSQL: '\x…'
+		vText    = 1 << 10 // text literals
+		vHexNum  = 1 << 17 // MySQL: 0x…
 		vBindOrg = 1 << 13
+		vBinary  = 1 << 12 // PostgreSQL: parameters in binary format
 	)
+	mixedCols := []string{"0.0:t", "0.1", "0.2:e", "0.3"}
 	hx := func(s string) string { return core.Hex([]byte(s)) }
 	wits := []wit{
-		{"mysql-hexval-literal", "mysql", "C.0.1,L." + hx("AB") + ",=", nil, []string{"AB", "4142", "x"}, vHexVal},
-		{"mysql-0x-string-literal", "mysql", "C.0.1,L." + hx("0x41") + ",=", nil, []string{"0x41", "A", "x"}, vText},
-		{"mysql-hexnum-literal", "mysql", "C.0.1,L." + hx("AB") + ",=", nil, []string{"AB", "x"}, vHexNum},
-		{"mysql-literal-and-placeholder", "mysql", "C.0.1,L." + hx("bob") + ",=,C.0.3,P.0,=,&", [][]byte{[]byte("bob")}, []string{"bob", "x"}, vText},
-		{"mysql-literal-and-placeholder-bindorig", "mysql", "C.0.1,L." + hx("bob") + ",=,C.0.3,P.0,=,|", [][]byte{[]byte("x")}, []string{"bob", "x", "y"}, vText | vBindOrg},
-		{"mysql-noncolumn-left-and-placeholder", "mysql", "L." + hx("a") + ",C.0.0,=,C.0.1,P.0,=,|", [][]byte{[]byte("bob")}, []string{"bob", "x"}, vText | vBindOrg},
-		{"mysql-rewritten-literal-and-placeholder", "mysql", "C.0.1,L." + hx("bob") + ",<>,C.0.3,P.0,=,&", [][]byte{[]byte("x")}, []string{"bob", "x"}, vHexVal},
-		{"value-on-left", "pg", "L." + hx("bob") + ",C.0.1,=", nil, []string{"bob", "x"}, vText},
-		{"value-on-left-mysql", "mysql", "P.0,C.0.1,=", [][]byte{[]byte("bob")}, []string{"bob", "x"}, vText},
-		{"cast-placeholder", "pg", "C.0.1,Q.0,=", [][]byte{[]byte("bob")}, []string{"bob", "x"}, vText},
+		{"mysql-hexval-literal", "mysql", "C.0.1,L." + hx("AB") + ",=", nil, []string{"AB", "4142", "x"}, vHexVal, nil},
+		{"mysql-0x-string-literal", "mysql", "C.0.1,L." + hx("0x41") + ",=", nil, []string{"0x41", "A", "x"}, vText, nil},
+		{"mysql-hexnum-literal", "mysql", "C.0.1,L." + hx("AB") + ",=", nil, []string{"AB", "x"}, vHexNum, nil},
+		{"mysql-literal-and-placeholder", "mysql", "C.0.1,L." + hx("bob") + ",=,C.0.3,P.0,=,&", [][]byte{[]byte("bob")}, []string{"bob", "x"}, vText, nil},
+		{"mysql-literal-and-placeholder-bindorig", "mysql", "C.0.1,L." + hx("bob") + ",=,C.0.3,P.0,=,|", [][]byte{[]byte("x")}, []string{"bob", "x", "y"}, vText | vBindOrg, nil},
+		{"mysql-noncolumn-left-and-placeholder", "mysql", "L." + hx("a") + ",C.0.0,=,C.0.1,P.0,=,|", [][]byte{[]byte("bob")}, []string{"bob", "x"}, vText | vBindOrg, nil},
+		{"mysql-rewritten-literal-and-placeholder", "mysql", "C.0.1,L." + hx("bob") + ",<>,C.0.3,P.0,=,&", [][]byte{[]byte("x")}, []string{"bob", "x"}, vHexVal, nil},
+		{"value-on-left", "pg", "L." + hx("bob") + ",C.0.1,=", nil, []string{"bob", "x"}, vText, nil},
+		{"value-on-left-mysql", "mysql", "P.0,C.0.1,=", [][]byte{[]byte("bob")}, []string{"bob", "x"}, vText, nil},
+		{"cast-placeholder", "pg", "C.0.1,Q.0,=", [][]byte{[]byte("bob")}, []string{"bob", "x"}, vText, nil},
+		// OnBind gave up (bound values forwarded UNHASHED – the search finds nothing and the plaintext operand
+		// reaches the database) when the statement also compared a consistently tokenized column with a
+		// placeholder: `len(bindData) > len(indexes)` counted that column's placeholder too (fixed)
+		{"pg-tokenized-then-searchable", "pg", "C.0.0,P.0,=,C.0.1,P.1,=,&", [][]byte{[]byte("a"), []byte("bob")}, []string{"bob", "x"}, vText, mixedCols},
+		{"pg-searchable-then-tokenized", "pg", "C.0.1,P.0,=,C.0.0,P.1,=,&", [][]byte{[]byte("bob"), []byte("a")}, []string{"bob", "x"}, vHexVal, mixedCols},
+		{"pg-tokenized-or-searchable-bindorig", "pg", "C.0.0,P.0,<>,C.0.1,P.1,=,|", [][]byte{[]byte("a"), []byte("bob")}, []string{"bob", "x"}, vText | vBindOrg, mixedCols},
+		{"pg-tokenized-encrypted-searchable-binary", "pg", "C.0.2,P.0,=,C.0.0,P.1,=,C.0.3,P.2,<>,&,|", [][]byte{[]byte("p"), []byte("a"), []byte("x")}, []string{"bob", "x"}, vBinary, mixedCols},
+		{"mysql-tokenized-then-searchable", "mysql", "C.0.0,P.0,=,C.0.1,P.1,=,&", [][]byte{[]byte("a"), []byte("bob")}, []string{"bob", "x"}, vText, mixedCols},
+		{"mysql-searchable-then-tokenized", "mysql", "C.0.1,P.0,=,C.0.0,P.1,<=>,&", [][]byte{[]byte("bob"), []byte("a")}, []string{"bob", "x"}, vText | vBindOrg, mixedCols},
+		// a placeholder used in two comparisons was hashed twice: newValues shares its elements with values (fixed)
+		{"pg-shared-placeholder-same-column", "pg", "C.0.1,P.0,=,C.0.1,P.0,=,|", [][]byte{[]byte("bob")}, []string{"bob", "x"}, vText, nil},
+		{"pg-shared-placeholder-two-columns", "pg", "C.0.1,P.0,=,C.0.3,P.0,<>,&", [][]byte{[]byte("bob")}, []string{"bob", "x"}, vHexVal | vBindOrg, nil},
+		{"pg-shared-placeholder-binary", "pg", "C.0.1,P.0,=,C.0.3,P.0,=,|", [][]byte{[]byte("x")}, []string{"bob", "x"}, vBinary, nil},
+		{"mysql-shared-named-placeholder", "mysql", "C.0.1,P.0,=,C.0.3,P.0,=,|", [][]byte{[]byte("bob")}, []string{"bob", "x"}, vText, nil},
+		// through both observers: a literal after a tokenized column made MySQLTokenizeQuery.OnBind fail (fixed) …
+		{"mysql-chain-tokenized-literal-and-placeholder", "mysql", "C.0.0,L." + hx("ab") + ",<>,C.0.1,P.0,=,&", [][]byte{[]byte("bob")}, []string{"bob", "x"}, vText, mixedCols},
+		// … and the literal '' of a tokenized column (its token is '' again) stops the whole rewrite (known finding)
+		{"chain-empty-literal-on-tokenized-column", "pg", "C.0.0,L.-,<>,C.0.1,L." + hx("bob") + ",=,&", nil, []string{"bob", "x"}, vText, mixedCols},
+		{"chain-empty-literal-on-tokenized-column-mysql", "mysql", "C.0.0,L.-,<>,C.0.1,P.0,=,&", [][]byte{[]byte("bob")}, []string{"bob", "x"}, vText, mixedCols},
 	}
 	for _, wt := range wits {
 		r.Begin("regress-"+wt.name, true, "case:regression", "regress:"+wt.name)
@@ -478,7 +676,15 @@ func regression(r *core.Run) {
 		}
 		c := parseCond(wt.cond)
 		cols := []string{"0.1", "0.3"}
+		if wt.cols != nil {
+			cols = wt.cols
+		}
+		// the pinned tree's OnBind, from the model (documentation of the witness; not judged)
+		r.ModelOnly(fmt.Sprintf("C09.legacy.bind %s %s %s %s %s", wt.dialect, w.toks(), strings.Join(cols, ";"), wt.cond, env.List(wt.params)))
 		out := r.Do(fmt.Sprintf("C09.query %s %s %s %s %s %s %d", wt.dialect, w.toks(), strings.Join(cols, ";"), wt.cond, env.List(wt.params), rowsStr(storedRows, order), wt.variant))
 		judge(r, wt.dialect, v, c, wt.params, w, cols, storedRows, plainRows, order, out, true)
+		if wt.cols != nil || strings.Contains(wt.name, "shared") {
+			chainCase(r, wt.dialect, v, c, wt.params, w, cols, plainRows, order)
+		}
 	}
 }
